@@ -234,6 +234,20 @@ func (p *Prog) VerifyFunction(fn *ssa.Function, fc *FuncContract, split *int, wa
 			}
 		}
 	}
+	// lemmas this unit uses: forall params: requires ==> ensures (the lemma is proved as its own unit)
+	if fc != nil {
+		for _, ln := range fc.Uses {
+			l := p.CS.Lemmas[ln]
+			if l == nil {
+				e.failed = fmt.Errorf("%s:%d: uses unknown lemma %s", fc.File, fc.Line, ln)
+				return e
+			}
+			if err := e.assumeLemma(st, l); err != nil {
+				e.failed = err
+				return e
+			}
+		}
+	}
 	pkgPath := ""
 	if fn.Pkg != nil {
 		pkgPath = fn.Pkg.Pkg.Path()
@@ -748,4 +762,41 @@ func (p *Prog) namedType(key string) types.Type {
 		return nil
 	}
 	return tn.Type()
+}
+
+// assumeLemma adds `forall params: requires ==> ensures` of a lemma as a fact. Opaque spec
+// functions stay opaque here (the lemma's own proof reveals them).
+func (e *Enc) assumeLemma(st *State, l *Lemma) error {
+	bind := map[string]TV{}
+	tc := &EvalCtx{e: e, spec: l.Spec}
+	var qs []Val
+	for _, prm := range l.Params {
+		t, s, err := tc.resolveType(prm.Type)
+		if err != nil {
+			return fmt.Errorf("%s:%d: %v", l.File, l.Line, err)
+		}
+		qv := Val{prm.Name + "!L", s}
+		qs = append(qs, qv)
+		bind[prm.Name] = TV{Val: qv, Ty: t, Unsigned: t == nil}
+	}
+	ec := &EvalCtx{e: e, st: st, old: st, bind: bind, spec: l.Spec, depth: 1}
+	pre := True
+	for _, rq := range l.Requires {
+		c, err := ec.evalBool(rq.Expr)
+		if err != nil {
+			return fmt.Errorf("%s:%d: %v", rq.File, rq.Line, err)
+		}
+		pre = And(pre, c)
+	}
+	post := True
+	for _, en := range l.Ensures {
+		c, err := ec.evalBool(en.Expr)
+		if err != nil {
+			return fmt.Errorf("%s:%d: %v", en.File, en.Line, err)
+		}
+		post = And(post, c)
+	}
+	e.fact(Forall(qs, Implies(pre, post)))
+	e.lemmasUsed[l.Name] = true
+	return nil
 }
